@@ -7,6 +7,7 @@ results() / process() / datastream(). Links given in shapes the framework may no
 either take effect or be rejected with an error.
 """
 import copy
+import os
 
 from vlib import boot, dsl, gen, lab
 
@@ -35,6 +36,71 @@ def gen_cases(tier, seed):
         if i % 6 == 1:
             fam = 'alias'
         yield {'family': fam, 'idx': i, 'seed': seed}
+    # the same rejection of alien links with assertions disabled (python -O)
+    yield {'family': 'alien_optimized', 'idx': 10 ** 6, 'seed': seed}
+
+
+ALIEN_O_SCRIPT = r'''
+import functools, json, sys
+import dataflows as d
+assert sys.flags.optimize >= 1
+
+
+class H:
+    def row(self, row):
+        row['a'] += 1
+
+
+def bump(row):
+    row['a'] += 1
+
+
+KINDS = {'int': 5, 'none': None, 'object': object(), 'class': dict, 'fn_wrong_param': (lambda x: x),
+         'fn_two_params': (lambda row, extra: row), 'bound_method': H().row,
+         'partial': functools.partial(lambda extra, row: bump(row), 0), 'float': 1.5}
+out = {}
+plain = d.Flow([{'a': 1}, {'a': 2}], bump).results()[0]
+for k, link in KINDS.items():
+    for pos in (1, 2):
+        steps = [[{'a': 1}, {'a': 2}], bump]
+        steps.insert(pos, link)
+        try:
+            got = d.Flow(*steps).results()[0]
+            out['%s@%d' % (k, pos)] = 'skipped' if got == plain else 'effect'
+        except Exception as e:
+            out['%s@%d' % (k, pos)] = 'rejected:' + type(getattr(e, 'cause', e)).__name__
+print('RESULT ' + json.dumps(out))
+'''
+
+
+def run_alien_optimized(case):
+    import json
+    import subprocess
+    counters = {'strategies_compared': 0, 'links_rejected': 0}
+    cov = {'callable_shape': {}}
+    viol = []
+    env = dict(os.environ, PYTHONPATH=boot.REPO, PYTHONOPTIMIZE='')
+    try:
+        p = subprocess.run([boot.PY, '-O', '-W', 'ignore', '-c', ALIEN_O_SCRIPT], capture_output=True, text=True,
+                           timeout=150, env=env, cwd=os.getcwd())
+    except subprocess.TimeoutExpired:
+        return dict(nontrivial=False, violations=[], cov=cov, counters=counters, inconclusive='python -O run timed out')
+    line = next((ln for ln in p.stdout.splitlines() if ln.startswith('RESULT ')), None)
+    if line is None:
+        return dict(nontrivial=False, violations=[], cov=cov, counters=counters,
+                    inconclusive='python -O run gave no result: %s' % (p.stderr[-300:],))
+    res = json.loads(line[7:])
+    for k, v in sorted(res.items()):
+        counters['strategies_compared'] += 1
+        cov['callable_shape']['alien_optimized/' + k.split('@')[0]] = 1
+        if v.startswith('rejected'):
+            counters['links_rejected'] += 1
+        elif v == 'skipped':
+            kind = k.split('@')[0]
+            viol.append({'kind': 'link_silently_skipped', 'mech': 'silently_skipped/python_O/' +
+                         ('callable' if kind in ('bound_method', 'partial') else 'non_step'),
+                         'msg': 'with assertions disabled (python -O) a link of kind %s was accepted and had no effect' % k})
+    return dict(nontrivial=True, violations=viol, cov=cov, counters=counters, sample={'python_O': res})
 
 
 LATE_KEYS = ('bytes', 'hash', 'count_of_rows')
@@ -178,6 +244,8 @@ def groupings(rng, n):
 
 
 def run_case(case):
+    if case['family'] == 'alien_optimized':
+        return run_alien_optimized(case)
     fam = case['family']
     rng = boot.rng(case['seed'], 'C01', case['idx'])
     d = lab.df()
